@@ -387,7 +387,8 @@ func (e *Evaluator) generalReferenceEvaluation(
 			return err
 		}
 
-		p.SetLastEvaluatedT(methodT)
+		// a copy: an assignment writes through the last evaluated value
+		p.SetLastEvaluatedT(methodT.DeepCopy())
 
 		return nil
 
@@ -400,7 +401,8 @@ func (e *Evaluator) generalReferenceEvaluation(
 
 		p.Unget()
 
-		p.SetLastEvaluatedT(methodT)
+		// a copy: an assignment writes through the last evaluated value
+		p.SetLastEvaluatedT(methodT.DeepCopy())
 
 		return e.evalPriorityExp(p, ctx)
 	}
@@ -713,7 +715,8 @@ func (s *SquareBracket) Evaluation(
 	methodT := base.GetMethodT(ctx.GetFrame(), base.TypeToString(&lastT), "[]", false)
 	if methodT != nil && !t.IsBeforeSpace {
 		p.SkipToTargetToken("]")
-		p.SetLastEvaluatedT(methodT)
+		// a copy: an assignment writes through the last evaluated value
+		p.SetLastEvaluatedT(methodT.DeepCopy())
 
 		return nil
 	}
